@@ -158,8 +158,8 @@ def check_table(P, Env, N, o, op, expect):
                                      for k, v in sorted(table.items())}})
 
 
-def check(ctx):
-    P = ctx.P
+def ops_obligations(P):
+    """C07.1-3: the per-element effect of pause / unpause / cancel (no dependence on other rule modules, so C01 can re-use it)"""
     Env = P.cls('Environment')
     N = Normalizer(P, Env)
     obs = []
@@ -194,6 +194,15 @@ def check(ctx):
     check_table(P, Env, N, o3, 'cancel_matching_events', {
         ('_events', True): ({'_events': 1, '_paused_events': 0}, [('cancelled', is_true, 'each selected event must be marked cancelled')], False),
         ('_paused_events', True): ({'_events': 0, '_paused_events': 1}, [('cancelled', is_true, 'each selected event must be marked cancelled')], False)})
+    return obs
+
+
+def check(ctx):
+    P = ctx.P
+    Env = P.cls('Environment')
+    N = Normalizer(P, Env)
+    obs = ops_obligations(P)
+    o1, o2, o3 = obs
 
     # ---- C07.4 nobody else ---------------------------------------------------------------------
     o4 = Ob('C07.4', 'K1', 'no other code moves events between the lists or writes paused_at / cancelled / an event time')
